@@ -40,7 +40,7 @@ CHECKS.update({
             "DESIGN.md 4/C02"),
     "C09": ("exploration",
             "exhaustive enumeration of all subsets x all permutations of <=K rules x transactions in most_specific mode against an AST-derived lexicographic rank key",
-            "Every ordered sequence of <=3 (quick) / <=4 (thorough) distinct rules from an 18-rule alphabet (incl. patterns holding the other quote character), plus every sequence of 4 / 5 rules over its 12 core rules, with two exact-tie pairs, a priority-0 rule, a same-category pair and a let-binding pair is evaluated on 30 transactions through "
+            "Every ordered sequence of <=3 (quick) / <=4 (thorough) distinct rules from a 19-rule alphabet (incl. patterns holding the other quote character and a 2100-character pattern), plus every sequence of 4 / 5 rules over its 12 core rules, with two exact-tie pairs, a priority-0 rule, a same-category pair and a let-binding pair is evaluated on 30 transactions through "
             "engine.match, normalize_merchant, and normalize_merchant after the same file was first loaded in first_match mode; category must come from the top-ranked true "
             "categorising rule (ties to the earlier rule), subcategory from the top-ranked one that sets a subcategory, tags from all true rules; a legacy-CSV family (with an invalid row at every position) runs in most_specific mode through the library and `tally up --migrate`.",
             "rank key read from the AST; alphabet restricted to rules where a textual reading gives the same key (asserted at start-up)",
